@@ -94,6 +94,15 @@ Proof.
   destruct (tag_diff (tags w) (convert_taglist tl)). reflexivity.
 Qed.
 
+Lemma on_about_to_finish_target w same next : target (fst (on_about_to_finish w same next)) = target w.
+Proof.
+  unfold on_about_to_finish. destruct same; [reflexivity|].
+  destruct (atf_cb (cfg w)); [|reflexivity]. destruct next as [[u fl]|]; reflexivity.
+Qed.
+
+Lemma on_source_setup_world w f l p h : fst (on_source_setup w f l p h) = w.
+Proof. unfold on_source_setup. destruct (negb f); reflexivity. Qed.
+
 Lemma step_target w i :
   target (fst (step w i)) = match request_of i with Some s => s | None => target w end.
 Proof.
@@ -101,6 +110,8 @@ Proof.
   - destruct from_playbin; [apply on_state_changed_target|reflexivity].
   - apply on_buffering_target.
   - apply on_tag_target.
+  - apply on_about_to_finish_target.
+  - rewrite on_source_setup_world. reflexivity.
 Qed.
 
 Theorem target_is_last_request : forall ins, target (final init ins) = last_request ins.
@@ -133,17 +144,114 @@ Proof.
 Qed.
 
 Lemma step_pending_uri w i :
-  pending_uri (fst (step w i)) = match i with SetUri u _ => Some u | _ => pending_uri w end.
+  pending_uri (fst (step w i)) = uri_after (atf_cb (cfg w)) (pending_uri w) i.
 Proof.
-  destruct i; cbn [step]; try reflexivity.
+  unfold uri_after.
+  destruct i; cbn [step sets_uri]; try reflexivity.
   - destruct from_playbin; [apply on_state_changed_uri|reflexivity].
   - apply on_buffering_uri.
   - apply on_tag_uri.
+  - unfold on_about_to_finish. destruct in_actor_thread; [reflexivity|].
+    destruct next as [[u fl]|]; destruct (atf_cb (cfg w)); reflexivity.
+  - rewrite on_source_setup_world. reflexivity.
+Qed.
+
+Lemma on_state_changed_cfg w n p : cfg (fst (on_state_changed w n p)) = cfg w.
+Proof.
+  unfold on_state_changed. destruct (rewrite n p) as [n' p'].
+  destruct (negb (gst_eqb p' VOID)); [reflexivity|].
+  destruct (gst_eqb n' READY); [reflexivity|].
+  destruct (image n'); [|reflexivity].
+  destruct (image (target w)); reflexivity.
+Qed.
+
+Lemma on_buffering_cfg w pct m : cfg (fst (on_buffering w pct m)) = cfg w.
+Proof.
+  unfold on_buffering. destruct (rank (target w) <? rank PAUSED); [reflexivity|].
+  destruct m as [[]|]; try reflexivity;
+    cbn [fst]; destruct ((pct <? 10) && negb (buffering w)), (pct =? 100); reflexivity.
+Qed.
+
+Lemma on_tag_cfg w tl : cfg (fst (on_tag w tl)) = cfg w.
+Proof.
+  unfold on_tag. destruct (pending_tags w); [reflexivity|].
+  destruct (tag_diff (tags w) (convert_taglist tl)). reflexivity.
+Qed.
+
+(* the about-to-finish callback registration follows set_about_to_finish_callback only *)
+Lemma step_atf_cb w i : atf_cb (cfg (fst (step w i))) = cb_after (atf_cb (cfg w)) i.
+Proof.
+  destruct i; cbn [step cb_after]; try reflexivity.
+  - destruct from_playbin; [rewrite on_state_changed_cfg|]; reflexivity.
+  - rewrite on_buffering_cfg. reflexivity.
+  - rewrite on_tag_cfg. reflexivity.
+  - unfold on_about_to_finish. destruct in_actor_thread; [reflexivity|].
+    destruct (atf_cb (cfg w)) eqn:E; [|exact E].
+    destruct next as [[u fl]|]; cbn; first [exact E | symmetry; exact E | reflexivity].
+  - rewrite on_source_setup_world. reflexivity.
+Qed.
+
+Lemma uri_run : forall ins w,
+  (atf_cb (cfg (final w ins)), pending_uri (final w ins)) =
+  fold_left (fun s i => (cb_after (fst s) i, uri_after (fst s) (snd s) i)) ins
+            (atf_cb (cfg w), pending_uri w).
+Proof.
+  induction ins as [|i t IH]; intros w; [reflexivity|].
+  rewrite final_cons, IH, step_atf_cb, step_pending_uri. reflexivity.
 Qed.
 
 Theorem pending_uri_is_last_uri : forall ins, pending_uri (final init ins) = last_uri ins.
 Proof.
-  intros ins. unfold last_uri. change (@None Z) with (pending_uri init). generalize init.
-  induction ins as [|i t IH]; intros w; [reflexivity|].
-  rewrite final_cons, IH, step_pending_uri. destruct i; reflexivity.
+  intros ins. pose proof (uri_run ins init) as H. apply (f_equal snd) in H. exact H.
+Qed.
+
+Theorem callback_flag_is_history : forall ins, atf_cb (cfg (final init ins)) = fst (uri_hist ins).
+Proof.
+  intros ins. pose proof (uri_run ins init) as H. apply (f_equal fst) in H. exact H.
+Qed.
+
+(* ---------------------------------------------------------------- the two playbin signals *)
+
+Lemma on_about_to_finish_evs w s n : o_evs (snd (on_about_to_finish w s n)) = [].
+Proof.
+  unfold on_about_to_finish. destruct s; [reflexivity|].
+  destruct (atf_cb (cfg w)); [|reflexivity]. destruct n as [[u fl]|]; reflexivity.
+Qed.
+
+Lemma on_source_setup_evs w f l p h : o_evs (snd (on_source_setup w f l p h)) = [].
+Proof. unfold on_source_setup. destruct (negb f); reflexivity. Qed.
+
+Lemma on_about_to_finish_st w s n : st (fst (on_about_to_finish w s n)) = st w.
+Proof.
+  unfold on_about_to_finish. destruct s; [reflexivity|].
+  destruct (atf_cb (cfg w)); [|reflexivity]. destruct n as [[u fl]|]; reflexivity.
+Qed.
+
+Lemma on_about_to_finish_buffering w s n : buffering (fst (on_about_to_finish w s n)) = buffering w.
+Proof.
+  unfold on_about_to_finish. destruct s; [reflexivity|].
+  destruct (atf_cb (cfg w)); [|reflexivity]. destruct n as [[u fl]|]; reflexivity.
+Qed.
+
+Lemma on_about_to_finish_tags w s n : tags (fst (on_about_to_finish w s n)) = tags w.
+Proof.
+  unfold on_about_to_finish. destruct s; [reflexivity|].
+  destruct (atf_cb (cfg w)); [|reflexivity]. destruct n as [[u fl]|]; reflexivity.
+Qed.
+
+(* about-to-finish never tells the pipeline to change state *)
+Lemma on_about_to_finish_no_set_state w s n c :
+  In c (o_cmds (snd (on_about_to_finish w s n))) -> forall g, c <> CSetState g.
+Proof.
+  unfold on_about_to_finish. destruct s; [intros []|].
+  destruct (atf_cb (cfg w)); [|intros []].
+  destruct n as [[u fl]|]; cbn; intros H g; repeat (destruct H as [H|H]; [subst c; discriminate|]); contradiction.
+Qed.
+
+Lemma on_source_setup_no_set_state w f l p h c :
+  In c (o_cmds (snd (on_source_setup w f l p h))) -> forall g, c <> CSetState g.
+Proof.
+  unfold on_source_setup. destruct (negb f); [intros []|]. cbn.
+  destruct (src_cb (cfg w)), (live (cfg w) && l), (p && h); cbn;
+    intros H g; repeat (destruct H as [H|H]; [subst c; discriminate|]); contradiction.
 Qed.
